@@ -12,6 +12,8 @@ pub use crate::services::helpers::{
     get_requested_non_revoked_interval,
 };
 
+pub use crate::utils::query::{AbstractQuery, Query};
+
 pub fn normalize_encoded_attr(attr: &str) -> String {
     crate::services::verifier::verif_normalize_encoded_attr(attr)
 }
